@@ -17,8 +17,15 @@ protocol every object goes through in every makeFeasible() call (events logged b
 markAllSubConstraintsAsInactive / subConstraintsRemaining / getCurrSubConstraintAlternatives / markCurrSubConstraintAsActive, cursor
 and `satisfied` flags) must equal the extracted Coq model's (Cola/SubCursorModel.v mf_call, run on the observed accept/reject decisions),
 for which C07_makeFeasible_accounts_for_every_subconstraint proves that every sub-constraint is offered exactly once per call whatever
-state earlier calls left the object in."""
-import os, json, math
+state earlier calls left the object in;
+and the family 'cml-reuse' (gen_cml_case / cml_sequences, harness mode cml; seeded change C07-7): ONE ConstrainedMajorizationLayout object
+through up to three run() / runOnce() calls, constraints appended to the registered vector and / or setConstraints(&other) and
+setUnsatisfiableConstraintInfo(&other lists) in between - after EVERY run the verified checker is evaluated on the constraint set IN FORCE at
+that run (the members of the registered vector at that moment, references remapped) with the lists registered at that run.
+Robustness (seeded change C07-8 made the check die on non-UTF-8 bytes the library printed on stderr): C.sh decodes with errors='replace';
+every parser of harness / model output rejects what it cannot interpret as a reported violation with the case and a replay line; a
+last-resort guard in run() turns an exception of a family driver into a reported violation - never a traceback."""
+import os, json, math, re
 from fractions import Fraction
 from vlib import common as C
 
@@ -313,7 +320,7 @@ def correspondence(res, rng, ncases, cpp, ml):
         return cases, diffs, hist, 0, samples
     for i, c in enumerate(cases):
         for d in (0, 1):
-            a, b = parse_gen(o1[2 * i + d]), parse_gen(o2[2 * i + d])
+            a, b = parse_gen_safe(o1[2 * i + d]), parse_gen_safe(o2[2 * i + d])      # output that cannot be parsed is ('BAD', line): a reported difference
             key = a[0] if a[0] != 'OK' else 'OK'
             hist[key] = hist.get(key, 0) + 1
             if a[0] == 'OK' and len(a[3]) > 0:
@@ -637,6 +644,371 @@ def gen_reuse_case(rng, idx):
     return c
 
 
+# ----------------------------------------------------------------------------------------------- family 'cml-reuse' (harness mode cml)
+def cops_tokens(cops):
+    """op sequence of the family 'cml-reuse' (harness mode cml): ['PUSH', v, [idx..]] | ['SET', v] | ['RUN', xa, ya] | ['ONCE', xa, ya]
+    | ['OVERLAP'] | ['LISTS', u]"""
+    t = [len(cops)]
+    for o in cops:
+        if o[0] == 'PUSH':
+            t += [1, int(o[1]), len(o[2])] + [int(x) for x in o[2]]
+        elif o[0] == 'SET':
+            t += [2, int(o[1])]
+        elif o[0] == 'RUN':
+            t += [3, int(o[1]), int(o[2])]
+        elif o[0] == 'ONCE':
+            t += [4, int(o[1]), int(o[2])]
+        elif o[0] == 'OVERLAP':
+            t += [5]
+        elif o[0] == 'LISTS':
+            t += [6, int(o[1])]
+        else:
+            raise ValueError(o)
+    return t
+
+
+def cml_line(case):
+    return case_line(case, layout=True) + ' ' + ' '.join(str(int(x)) for x in cops_tokens(case['cops']))
+
+
+def cops_text(cops, upto=None):
+    out = ['ConstrainedMajorizationLayout alg(...); setUnsatisfiableConstraintInfo(&ux0,&uy0)']
+    for o in (cops if upto is None else cops[:upto + 1]):
+        if o[0] == 'PUSH':
+            out.append('%s.push_back(cc %s)' % ('AB'[o[1]], ','.join(str(x) for x in o[2])))
+        elif o[0] == 'SET':
+            out.append('setConstraints(&%s)' % 'AB'[o[1]])
+        elif o[0] in ('RUN', 'ONCE'):
+            out.append('%s(%s,%s)' % ('run' if o[0] == 'RUN' else 'runOnce', 'true' if o[1] else 'false', 'true' if o[2] else 'false'))
+        elif o[0] == 'OVERLAP':
+            out.append('setAvoidOverlaps()')
+        else:
+            out.append('setUnsatisfiableConstraintInfo(&ux%d,&uy%d)' % (o[1], o[1]))
+    return '; '.join(out)
+
+
+def sub_case(case, members):
+    """the constraint set in force: the members of the client vector, in order, references (positions of alignments) remapped;
+    None if a reference points outside the vector (the generator never does that)"""
+    pos = {}
+    for k, g in enumerate(members):
+        pos.setdefault(g, k)
+    ccs = []
+    for g in members:
+        cc = dict(case['ccs'][g])
+        try:
+            if cc['code'] == 2:
+                cc['la'], cc['ra'] = pos[cc['la']], pos[cc['ra']]
+            if cc['code'] in (5, 6):
+                cc['prs'] = [[pos[a], pos[b]] for a, b in cc['prs']]
+        except KeyError:
+            return None
+        ccs.append(cc)
+    return {'n': case['n'], 'rects': case['rects'], 'ccs': ccs}
+
+
+def gen_cml_case(rng, idx):
+    """family 'cml-reuse' (seeded change C07-7): ONE ConstrainedMajorizationLayout object, up to three run() calls; between the calls
+    constraints are appended to the vector that was given to setConstraints(&v) and / or setConstraints(&other) is called; sometimes the
+    unsatisfiable lists are re-registered, the first run has an empty vector, single-axis runs, runOnce().  The pool of constraints is
+    jointly satisfiable BY CONSTRUCTION (a witness placement per dimension: guidelines / free nodes at rank * 80, aligned nodes at guideline +
+    offset; separations and alignment-pair separations with gap <= witness distance, equalities with gap = witness distance), so every
+    vector content is satisfiable: after EVERY run each constraint in force in a dimension that run laid out must hold (nothing is
+    expected in the lists).  Separations, alignments, alignment-pair separations only: no FixedRelative / overlap (known findings)."""
+    n = rng.range(3, 9)
+    rects = gen_rects(rng, n)
+    W = 80 * 16
+    ccs = []
+    for d in (0, 1):
+        nodes = rng.shuffle(list(range(n)))
+        groups = []
+        for _ in range(rng.range(0, 3)):
+            k = rng.range(1, 3)
+            if len(nodes) >= k + 1:
+                groups.append(nodes[:k]); nodes = nodes[k:]
+        units = rng.shuffle([('g', g) for g in groups] + [('v', [v]) for v in nodes])      # witness order of guidelines / free nodes
+        wpos = {}
+        gl = []                                   # (pool index of the alignment, witness position)
+        for r, (kind, g) in enumerate(units):
+            if kind == 'g':
+                sh = [[v, 0 if t == 0 else rng.range(-3, 3) * 40] for t, v in enumerate(g)]
+                for v, o in sh:
+                    wpos[v] = r * W + o
+                gl.append((len(ccs), r * W))
+                ccs.append({'code': 3, 'd': d, 'pos': rng.range(0, 200) * 16, 'fixed': False, 'sh': sh})
+            else:
+                wpos[g[0]] = r * W
+        byw = sorted(range(n), key=lambda v: wpos[v])
+        for _ in range(rng.range(2, 5)):
+            i = rng.below(n - 1); j = rng.range(i + 1, min(n - 1, i + 3))
+            l, r = byw[i], byw[j]
+            dist = wpos[r] - wpos[l]
+            if dist < 0:
+                continue
+            if rng.chance(1, 5):
+                ccs.append({'code': 1, 'd': d, 'l': l, 'r': r, 'g': dist, 'e': True})
+            else:
+                ccs.append({'code': 1, 'd': d, 'l': l, 'r': r, 'g': min(dist, rng.range(0, 60) * 16), 'e': False})
+        if len(gl) >= 2 and rng.chance(2, 3):
+            gs = sorted(gl, key=lambda t: t[1])
+            i = rng.below(len(gs) - 1)
+            dist = gs[i + 1][1] - gs[i][1]
+            e = rng.chance(1, 4)
+            ccs.append({'code': 2, 'd': d, 'la': gs[i][0], 'ra': gs[i + 1][0], 'g': dist if e else min(dist, rng.range(0, 60) * 16), 'e': e})
+    m = len(ccs)
+    order = rng.shuffle(list(range(m)))
+    cut1 = rng.range(0 if idx % 8 == 7 else 1, max(1, m - 1))
+    cut2 = rng.range(cut1, m)
+    parts = [order[:cut1], order[cut1:cut2], order[cut2:]]
+    if idx % 8 == 7:
+        parts = [[], order[:cut2], order[cut2:]]
+    vec = {0: [], 1: []}
+
+    def push(v, idxs):
+        add = []
+        for g in idxs:
+            for a in refs_of(ccs[g]) + [g]:
+                if a not in vec[v] and a not in add:
+                    add.append(a)
+        vec[v] += add
+        return ['PUSH', v, add]
+
+    def runop(kind='RUN'):
+        xa, ya = (1, 1)
+        if idx % 8 == 5:
+            xa, ya = rng.choice([(1, 0), (0, 1), (1, 1)])
+        return [kind, xa, ya]
+    pat = idx % 8
+    kind = 'ONCE' if pat == 6 else 'RUN'
+    cops = [push(0, parts[0]), ['SET', 0], runop(kind)]
+    if pat in (0, 4, 5, 6, 7):                       # append to the same vector (twice)
+        if pat == 4:
+            cops.append(['LISTS', 1])
+        cops += [push(0, parts[1]), runop(kind)]
+        if parts[2] and rng.chance(2, 3):
+            cops += [push(0, parts[2]), runop(kind)]
+    elif pat == 1:                                   # setConstraints(&other): the new ones alone or with some of the old
+        keep = [g for g in parts[0] if rng.chance(1, 2)]
+        cops += [push(1, rng.shuffle(keep + parts[1])), ['SET', 1], runop()]
+        if parts[2] and rng.chance(1, 2):
+            cops += [push(1, parts[2]), runop()]
+    elif pat == 2:                                   # append, then another vector
+        cops += [push(0, parts[1]), runop(), push(1, parts[2] + [g for g in parts[0] if rng.chance(1, 3)]), ['SET', 1], runop()]
+    else:                                            # another vector, then back to the first one (grown meanwhile)
+        cops += [push(1, parts[1]), ['SET', 1], runop(), push(0, parts[2]), ['SET', 0], runop()]
+    edges = [[rng.below(v), v] for v in range(1, n) if rng.chance(5, 6)]
+    return {'n': n, 'rects': rects, 'ccs': ccs, 'edges': edges, 'ideal': rng.choice([40, 60, 100]) * 16, 'mode': 3, 'overlap': 0,
+            'neighbour': int(rng.chance(1, 8)), 'stream': 'sat', 'kind': 'cml-reuse/' + ['append', 'other-vector', 'append+other', 'other+back',
+                                                                                      'append+relist', 'single-axis', 'runOnce', 'empty-first'][pat],
+            'cops': cops}
+
+
+def parse_cml(line, n):
+    """'CML ncalls (CALL op R <4n> UX k ids UY k ids STALE k IN v m ids [EXC text])*' -> list of calls; raises ValueError on anything else"""
+    t = line.split()
+    if len(t) < 2 or t[0] != 'CML':
+        raise ValueError('no CML record')
+    calls, p = [], 2
+
+    def expect(tok):
+        if p >= len(t) or t[p] != tok:
+            raise ValueError('expected %s at token %d' % (tok, p))
+    while p < len(t):
+        expect('CALL')
+        call = {'op': int(t[p + 1]), 'EXC': None}
+        p += 2
+        expect('R'); p += 1
+        if p + 4 * n > len(t):
+            raise ValueError('short rectangle list')
+        call['R'] = [[float(x) for x in t[p + 4 * i:p + 4 * i + 4]] for i in range(n)]
+        p += 4 * n
+        for key in ('UX', 'UY'):
+            expect(key)
+            k = int(t[p + 1]); call[key] = [int(x) for x in t[p + 2:p + 2 + k]]; p += 2 + k
+            if len(call[key]) != k:
+                raise ValueError('short list ' + key)
+        expect('STALE'); call['STALE'] = int(t[p + 1]); p += 2
+        expect('IN'); call['vec'] = int(t[p + 1]); k = int(t[p + 2]); call['IN'] = [int(x) for x in t[p + 3:p + 3 + k]]; p += 3 + k
+        if len(call['IN']) != k:
+            raise ValueError('short list IN')
+        if p < len(t) and t[p] == 'EXC':
+            call['EXC'] = t[p + 1].replace('_', ' ') if p + 1 < len(t) else '?'; p += 2
+        calls.append(call)
+    if len(calls) != int(t[1]):
+        raise ValueError('call count')
+    return calls
+
+
+def cml_sequences(res, rng, ncases, cpp, ml, corpus=True):
+    cases = [gen_cml_case(rng.fork(), i) for i in range(ncases)]
+    if corpus:
+        for f in sorted(os.listdir(os.path.join(C.VERIF, 'corpus')), reverse=True):
+            if f.startswith('c07_cml_') and f.endswith('.json'):
+                cases.insert(0, json.load(open(os.path.join(C.VERIF, 'corpus', f))))
+    lines = [cml_line(c) for c in cases]
+    rc, out, err = run_restarting(cpp, ['cml', '6'], lines)
+    stats = {'sequences': 0, 'runs': 0, 'runs_after_the_first': 0, 'runs_after_append_to_registered_vector': 0, 'runs_after_setConstraints_other_vector': 0,
+             'runs_after_relisting': 0, 'cc_in_force_evaluated': 0, 'cc_in_force_added_since_first_run_evaluated': 0, 'cc_excluded_reported': 0,
+             'cc_skipped_axis_not_run': 0, 'cc_skipped_infeasible_dim': 0, 'exceptions': 0, 'by_kind': {}}
+    viols = []
+    if rc != 0 or len(out) < len(cases):
+        done = len([l for l in out if l.strip()])
+        bad = cases[done] if done < len(cases) else None
+        viols.append({'what': 'layout harness (mode cml) crashed (signal/abort) on this case', 'rc': rc, 'case': bad, 'stderr': err[-1500:],
+                      'calls': cops_text(bad['cops']) if bad else None, 'replay': 'echo "%s" | <c07_cc harness> cml' % (lines[done] if bad else '')})
+        cases = cases[:done]
+    parsed = []
+    chk_lines, chk_key, gen_lines = [], [], []
+    for i, c in enumerate(cases):
+        rp0 = 'echo "%s" | <c07_cc harness> cml' % lines[i]
+        if out[i].startswith('SKIP'):
+            parsed.append(None); continue
+        if out[i].startswith('HANG'):
+            phase = out[i].split()[1] if len(out[i].split()) > 1 else '?'
+            viols.append({'what': 'a call of the sequence did not return within the CPU-time limit (6 s; typical: milliseconds) - non-termination in ' + phase,
+                          'phase': phase, 'calls': cops_text(c['cops']), 'case': c, 'replay': rp0 + ' 6'})
+            parsed.append(None); continue
+        try:
+            calls = parse_cml(out[i], c['n'])
+        except (ValueError, IndexError) as ex:
+            viols.append({'what': 'harness output (mode cml) that the check cannot interpret: ' + str(ex), 'calls': cops_text(c['cops']), 'case': c,
+                          'output': out[i][:400], 'replay': rp0})
+            parsed.append(None); continue
+        parsed.append(calls)
+        stats['sequences'] += 1
+        stats['by_kind'][c['kind']] = stats['by_kind'].get(c['kind'], 0) + 1
+        # the client's view: which vector is registered, what it contains at each run
+        vec, cur, first_members, prev = {0: [], 1: []}, None, None, None
+        nextop = 0
+        for q, call in enumerate(calls):
+            if not (nextop <= call['op'] < len(c['cops'])) or c['cops'][call['op']][0] not in ('RUN', 'ONCE'):
+                viols.append({'what': 'harness output (mode cml) does not follow the op list (CALL record %d names op %d)' % (q, call['op']),
+                              'calls': cops_text(c['cops']), 'case': c, 'output': out[i][:400], 'replay': rp0})
+                break
+            relisted = False
+            for o in c['cops'][nextop:call['op']]:
+                if o[0] == 'PUSH':
+                    vec[o[1]] += list(o[2])
+                elif o[0] == 'SET':
+                    cur = o[1]
+                elif o[0] == 'LISTS':
+                    relisted = True
+            nextop = call['op'] + 1
+            members = list(vec[cur]) if cur is not None else []
+            call['members'] = members
+            rp = rp0 + '    # one CALL record per run(); this is record %d (op %d)' % (q, call['op'])
+            if call['vec'] != (cur if cur is not None else -1) or call['IN'] != members:
+                viols.append({'what': 'harness (mode cml) and check disagree about the vector in force at run %d' % q, 'harness': [call['vec'], call['IN']],
+                              'check': [cur, members], 'calls': cops_text(c['cops']), 'case': c, 'replay': rp})
+                break
+            stats['runs'] += 1
+            if q > 0:
+                stats['runs_after_the_first'] += 1
+                if prev is not None and prev[0] == cur and prev[1] != members:
+                    stats['runs_after_append_to_registered_vector'] += 1
+                if prev is not None and prev[0] != cur:
+                    stats['runs_after_setConstraints_other_vector'] += 1
+                if relisted:
+                    stats['runs_after_relisting'] += 1
+            prev = (cur, members)
+            if first_members is None:
+                first_members = set(members)
+            call['new'] = [g for g in members if g not in first_members]
+            if call['EXC']:
+                stats['exceptions'] += 1
+                v = {'what': 'ConstrainedMajorizationLayout::run() number %d on one layout object threw: the postcondition of C07 is not delivered' % (q + 1),
+                     'exception': call['EXC'], 'calls_so_far': cops_text(c['cops'], call['op']), 'case': c, 'replay': rp}
+                if call['EXC'].startswith('char*'):
+                    v['fingerprint'] = 'vpsc_satisfy_throws_charptr'
+                viols.append(v)
+                break
+            R = call['R']
+            if not all(math.isfinite(x) for r in R for x in r):
+                viols.append({'what': 'NaN or infinite coordinate after run() number %d on one ConstrainedMajorizationLayout object' % (q + 1),
+                              'calls_so_far': cops_text(c['cops'], call['op']), 'result': R, 'case': c, 'replay': rp})
+                break
+            size_bad = [j for j, r in enumerate(R) if abs(r[2] - (c['rects'][j][1] - c['rects'][j][0]) / 16.0) > 1e-9 or
+                        abs(r[3] - (c['rects'][j][3] - c['rects'][j][2]) / 16.0) > 1e-9]
+            if size_bad:
+                viols.append({'what': 'rectangle size changed by run() number %d on one ConstrainedMajorizationLayout object' % (q + 1), 'nodes': size_bad,
+                              'calls_so_far': cops_text(c['cops'], call['op']), 'result': R, 'case': c, 'replay': rp})
+                break
+            if call['STALE']:
+                viols.append({'what': 'run() number %d wrote %d entries into unsatisfiable-constraint lists that are no longer registered '
+                                      '(setUnsatisfiableConstraintInfo was called with other lists before this run)' % (q + 1, call['STALE']),
+                              'calls_so_far': cops_text(c['cops'], call['op']), 'case': c, 'replay': rp})
+                break
+            if max(abs(x) for r in R for x in r[:2]) > 2.0 ** 40:
+                break
+            sc = sub_case(c, members)
+            if sc is None:
+                break
+            call['sub'] = sc
+            if members:
+                chk_lines.append(checker_line(sc, R)); chk_key.append((i, q)); gen_lines.append(case_line(sc))
+    if chk_lines:
+        rc2, out2, err2 = run_lines(ml, ['check'], chk_lines)
+        rcg, og, eg = run_lines(ml, ['gen'], gen_lines)
+        if rc2 != 0 or len(out2) < len(chk_lines) or rcg != 0 or len(og) < 2 * len(gen_lines):
+            viols.append({'what': 'extracted checker / generator failed to run (family cml-reuse)', 'rc': [rc2, rcg], 'stderr': (err2 + eg)[-1500:], 'machinery': True})
+        else:
+            for k, (i, q) in enumerate(chk_key):
+                c, call = cases[i], parsed[i][q]
+                members, sc = call['members'], call['sub']
+                flags = out2[k].split()
+                o = c['cops'][call['op']]
+                axes = (bool(o[1]), bool(o[2]))
+                rp = 'echo "%s" | <c07_cc harness> cml    # CALL record %d (op %d)' % (lines[i], q, call['op'])
+                if len(flags) != len(members) or any(len(f) != 2 for f in flags):
+                    viols.append({'what': 'verified checker output does not match the constraint set in force (family cml-reuse)', 'checker_output': out2[k][:300],
+                                  'calls_so_far': cops_text(c['cops'], call['op']), 'case': c, 'replay': rp})
+                    continue
+                feas = [None, None]
+                for d in (0, 1):
+                    g = parse_gen_safe(og[2 * k + d])
+                    if g[0] == 'OK':
+                        feas[d] = feasible(c['n'] + len(g[1]), g[3])
+                local = {g: j for j, g in reversed(list(enumerate(members)))}
+                done_one = False
+                for j, g in enumerate(members):
+                    cc = c['ccs'][g]
+                    for d in (0, 1):
+                        rep = set(x for x in (call['UX'] if d == 0 else call['UY']) if x >= 0)
+                        if (g in rep) or any(a in rep for a in refs_of(cc)):
+                            stats['cc_excluded_reported'] += 1
+                            continue
+                        if not axes[d]:
+                            stats['cc_skipped_axis_not_run'] += 1      # run(x,y) of the majorization layout projects only the axes it lays out
+                            continue
+                        if feas[d] is not True:
+                            stats['cc_skipped_infeasible_dim'] += 1
+                            continue
+                        stats['cc_in_force_evaluated'] += 1
+                        if g in call['new']:
+                            stats['cc_in_force_added_since_first_run_evaluated'] += 1
+                        if flags[j][d] == '1' or done_one:
+                            continue
+                        done_one = True
+                        viols.append({'what': 'compound constraint IN FORCE at run() number %d on one ConstrainedMajorizationLayout object (member of the vector registered with '
+                                              'setConstraints at that call; the constraint set in force is jointly satisfiable) is violated by more than 1e-4 '
+                                              'after that run and not reported unsatisfiable' % (q + 1),
+                                      'calls_so_far': cops_text(c['cops'], call['op']), 'run_index': q, 'run_axes': axes,
+                                      'constraint_was_in_force_at_the_first_run': g not in call['new'],
+                                      'constraint_index_in_the_case': g, 'position_in_the_registered_vector': j, 'constraint': cc, 'type': CODES[cc['code']], 'dim': 'XY'[d],
+                                      'vector_in_force': 'AB'[call['vec']] if call['vec'] >= 0 else None, 'members_in_force': members,
+                                      'constraints_in_force_jointly_satisfiable_in_dim': feas[d],
+                                      'centres_after_the_run': [r[:2] for r in call['R']], 'reported_unsat_X': call['UX'], 'reported_unsat_Y': call['UY'],
+                                      'case': c, 'replay': rp})
+    return cases, viols, stats
+
+
+def parse_gen_safe(line):
+    try:
+        return parse_gen(line)
+    except (AssertionError, ValueError, IndexError):
+        return ('BAD', line)
+
+
 def feasible(nvars, cs):
     """exact feasibility of a system of separation constraints x_l + g <= x_r (== when eq): no positive cycle
     (Bellman-Ford longest paths over Fractions; the gaps are dyadic so Fraction(float) is exact)"""
@@ -851,7 +1223,7 @@ def layouts(res, rng, ncases, cpp, ml, corpus=True, nroll=0, nsingle=0):
         c['feasible'] = [None, None]
         if rcg == 0 and len(og) >= 2 * len(cases):
             for d in (0, 1):
-                g = parse_gen(og[2 * i + d])
+                g = parse_gen_safe(og[2 * i + d])
                 if g[0] == 'OK':
                     c['feasible'][d] = feasible(c['n'] + len(g[1]), g[3])
                     c.setdefault('eqcycle', [None, None])[d] = has_equality_cycle(c['n'] + len(g[1]), g[3])
@@ -859,7 +1231,12 @@ def layouts(res, rng, ncases, cpp, ml, corpus=True, nroll=0, nsingle=0):
                     c.setdefault('eqoncycle', [None, None])[d] = equality_on_cycle(c['n'] + len(g[1]), g[3])
     chk_lines, chk_idx, parsed = [], [], []
     for i, c in enumerate(cases):
-        r = parse_layout(out[i], c['n'])
+        try:
+            r = parse_layout(out[i], c['n'])
+            if r is not None and (len(r['R']) != c['n'] or any(len(q) != 4 for q in r['R'])):
+                r = None
+        except (ValueError, IndexError):
+            r = None
         parsed.append(r)
         if r is None:
             if out[i].startswith('SKIP'):
@@ -878,7 +1255,8 @@ def layouts(res, rng, ncases, cpp, ml, corpus=True, nroll=0, nsingle=0):
                     v['fingerprint'] = 'majorization_fixedrelative_overlap_divergence'
                 viols.append(v)
                 continue
-            viols.append({'what': 'unparsable harness output', 'case': c, 'output': out[i][:300]}); continue
+            viols.append({'what': 'harness output that the check cannot interpret (mode layout)', 'case': c, 'output': out[i][:300],
+                          'replay': 'echo "%s" | <c07_cc harness> layout' % lines[i]}); continue
         stats['layouts'] += 1
         mk = 'mode%d' % c['mode']
         stats['by_mode'][mk] = stats['by_mode'].get(mk, 0) + 1
@@ -935,7 +1313,7 @@ def layouts(res, rng, ncases, cpp, ml, corpus=True, nroll=0, nsingle=0):
                 rk, xa, ya, iters, got = parsed[i]['TR']
                 key = 'rk=%d x=%d y=%d' % (rk, xa, ya)
                 stats['trace_by_flags'][key] = stats['trace_by_flags'].get(key, 0) + 1
-                exp = outt[k].split()
+                exp = outt[k].split() or ['?']
                 if exp[0] != got:
                     trace_viols.append({'what': 'ConstrainedFDLayout::run(%s,%s) does not perform the projections of the control-flow model '
                                                 '(Cola/CompoundCsModel.v run_trace; theorems driver_last_step_is_projection / '
@@ -958,6 +1336,10 @@ def layouts(res, rng, ncases, cpp, ml, corpus=True, nroll=0, nsingle=0):
                 c, r = cases[i], parsed[i]
                 flags = out2[k].split()
                 before = out3[k].split()
+                if len(flags) != len(c['ccs']) or len(before) != len(c['ccs']) or any(len(f) != 2 for f in flags + before):
+                    viols.append({'what': 'verified checker output does not match the constraint list of the case', 'checker_output': out2[k][:300], 'case': c,
+                                  'replay': 'echo "%s" | <c07_cc harness> layout' % lines[i]})
+                    continue
                 if c.get('kind') == 'rollback':
                     stats['rollback_cases'] = stats.get('rollback_cases', 0) + 1
                     stats.setdefault('rollback_by_tie', {})
@@ -1044,6 +1426,10 @@ def layouts(res, rng, ncases, cpp, ml, corpus=True, nroll=0, nsingle=0):
 
 
 # ----------------------------------------------------------------------------------------------- family 'reuse' (harness mode seq)
+SUB_FLAGS = re.compile(r'^(-|[01]+)$')
+SUB_LOG = re.compile(r'^(-|(I|R[01]|G\d+|M\d+:[01])(,(I|R[01]|G\d+|M\d+:[01]))*)$')
+
+
 def parse_seq(line, n):
     """'SEQ ncalls (CALL op M|R R <4n> UX k ids UY k ids SUB ncc (combine n cur0 cur1 flags log)* [EXC text])*' -> list of calls"""
     t = line.split()
@@ -1058,6 +1444,8 @@ def parse_seq(line, n):
         p += 3
         assert t[p] == 'R'; p += 1
         call['R'] = [[float(x) for x in t[p + 4 * i:p + 4 * i + 4]] for i in range(n)]
+        if any(len(r) != 4 for r in call['R']):
+            raise ValueError('short rectangle list')
         p += 4 * n
         for key in ('UX', 'UY'):
             assert t[p] == key
@@ -1067,6 +1455,8 @@ def parse_seq(line, n):
         call['SUB'] = []
         for _ in range(ncc):
             call['SUB'].append({'combine': t[p], 'n': int(t[p + 1]), 'cur0': int(t[p + 2]), 'cur1': int(t[p + 3]), 'flags': t[p + 4], 'log': t[p + 5]})
+            if not (t[p] in ('0', '1', '?') and SUB_FLAGS.match(t[p + 4]) and SUB_LOG.match(t[p + 5])):
+                raise ValueError('SUB record')
             p += 6
         if p < len(t) and t[p] == 'EXC':
             call['EXC'] = t[p + 1].replace('_', ' '); p += 2
@@ -1114,7 +1504,7 @@ def reuse_sequences(res, rng, ncases, cpp, ml, corpus=True):
         c['feasible'] = [None, None]
         if rcg == 0 and len(og) >= 2 * len(cases):
             for d in (0, 1):
-                g = parse_gen(og[2 * i + d])
+                g = parse_gen_safe(og[2 * i + d])
                 if g[0] == 'OK':
                     c['feasible'][d] = feasible(c['n'] + len(g[1]), g[3])
                     c.setdefault('eqcycle', [None, None])[d] = has_equality_cycle(c['n'] + len(g[1]), g[3])
@@ -1136,7 +1526,8 @@ def reuse_sequences(res, rng, ncases, cpp, ml, corpus=True):
         except (AssertionError, ValueError, IndexError):
             calls = None
         if calls is None:
-            viols.append({'what': 'unparsable harness output (mode seq)', 'case': c, 'output': out[i][:300]})
+            viols.append({'what': 'harness output that the check cannot interpret (mode seq)', 'calls': ops_text(c['ops']), 'case': c, 'output': out[i][:300],
+                          'replay': 'echo "%s" | <c07_cc harness> seq' % lines[i]})
             parsed.append(None); continue
         parsed.append(calls)
         stats['sequences'] += 1
@@ -1214,6 +1605,10 @@ def reuse_sequences(res, rng, ncases, cpp, ml, corpus=True):
                     continue
                 c, call = cases[i], parsed[i][q]
                 before = verdict.get((i, q, 'before'))
+                if len(flags) != len(c['ccs']) or any(len(f) != 2 for f in flags) or (before and (len(before) != len(c['ccs']) or any(len(f) != 2 for f in before))):
+                    viols.append({'what': 'verified checker output does not match the constraint list of the case (family reuse)', 'checker_output': ' '.join(flags)[:300],
+                                  'case': c, 'replay': 'echo "%s" | <c07_cc harness> seq' % lines[i]})
+                    continue
                 mf = call['kind'] == 'M'
                 if mf and before and any(f != '11' for f in before):
                     stats['mf_calls_some_constraint_violated_at_start'] += 1
@@ -1289,7 +1684,11 @@ def reuse_sequences(res, rng, ncases, cpp, ml, corpus=True):
                         bad = (q, None, 'the model did not complete the call: ' + (' '.join(model_calls[q]) if q < len(model_calls) else 'no output'))
                         break
                     for j, sb in enumerate(call['SUB']):
-                        mk, mn, mcur, mflags, mtrace = model_calls[q][j].split(':', 4)
+                        try:
+                            mk, mn, mcur, mflags, mtrace = model_calls[q][j].split(':', 4)
+                            int(mn), int(mcur)
+                        except ValueError:
+                            bad = (q, None, 'model output for object %d cannot be interpreted: %s' % (j, model_calls[q][j][:200])); break
                         stats['cursor_objects_compared'] += 1
                         stats['by_object_kind'][mk] = stats['by_object_kind'].get(mk, 0) + 1
                         stats['cursor_subconstraints_offered'] += len(offered_of(sb['log']))
@@ -1380,11 +1779,29 @@ def run(tier):
     nroll = 300 if tier == 'quick' else 2500
     nsingle = 400 if tier == 'quick' else 3000
     nreuse = 400 if tier == 'quick' else 3000
+    ncml = 300 if tier == 'quick' else 2500
     cases, diffs, hist, ntriv, samples = correspondence(res, rng.fork(), ncorr, cpp, ml)
-    # family 'reuse' first: its corpus entries are the regression for seeded change C07-6
-    rcases, rviols, rstats = reuse_sequences(res, rng.fork(), nreuse, cpp, ml)
-    lcases, viols, stats = layouts(res, rng.fork(), nlay, cpp, ml, nroll=nroll, nsingle=nsingle)
-    viols = rviols + viols
+    # last line of defence (seeded change C07-8 made the check itself die on bytes the library printed): whatever a family's driver
+    # trips over - output it cannot interpret, a protocol mismatch between model and implementation - is REPORTED, never an exception
+    crashed = []
+
+    def guarded(name, fn, fr, *a, **kw):
+        import traceback
+        try:
+            return fn(res, fr, *a, **kw)
+        except Exception:
+            crashed.append({'what': 'the check\'s driver for family %s raised on the output of the programs under test (reported instead of crashing; '
+                                    'replay: VERIF_SEED=%d ./check C07)' % (name, C.get_seed()), 'traceback': traceback.format_exc()[-2500:], 'machinery': True})
+            zero = {'layouts': 0, 'cc_evaluated': 0, 'cc_evaluated_after_mf': 0, 'cc_evaluated_after_run': 0, 'cursor_objects_compared': 0, 'calls': 0,
+                    'cc_in_force_evaluated': 0, 'runs': 0, 'driver_crashed': True}
+            return [], [], zero
+    # family 'reuse' first: its corpus entries are the regression for seeded changes C07-6 and C07-8
+    rcases, rviols, rstats = guarded('reuse', reuse_sequences, rng.fork(), nreuse, cpp, ml)
+    lcases, viols, stats = guarded('layouts', layouts, rng.fork(), nlay, cpp, ml, nroll=nroll, nsingle=nsingle)
+    # family 'cml-reuse' (own rng fork taken LAST so that the other families' streams are unchanged); its corpus entries are the
+    # regression for seeded change C07-7 and are reported first
+    ccases, cviols, cstats = guarded('cml-reuse', cml_sequences, rng.fork(), ncml, cpp, ml)
+    viols = cviols + rviols + viols + crashed
     # ---- decide
     real = 0
     viols.sort(key=lambda v: 1 if v.get('fingerprint') else 0)      # stable: unexplained failures are reported first
@@ -1407,8 +1824,8 @@ def run(tier):
                        'correspondence_disagreements': diffs[:3], 'machinery': machinery[:2], 'coq_log_tail': info['log'][-2500:]},
                       no_input=True)
     res.cov.update({
-        'evaluations': 2 * len(cases) + stats['cc_evaluated'] + rstats['cc_evaluated_after_mf'] + rstats['cc_evaluated_after_run'] + rstats['cursor_objects_compared'],
-        'distinct_nontrivial': ntriv + stats['layouts'] + rstats['calls'],
+        'evaluations': 2 * len(cases) + stats['cc_evaluated'] + rstats['cc_evaluated_after_mf'] + rstats['cc_evaluated_after_run'] + rstats['cursor_objects_compared'] + cstats['cc_in_force_evaluated'],
+        'distinct_nontrivial': ntriv + stats['layouts'] + rstats['calls'] + cstats['runs'],
         'rule': 'correspondence: (case, dimension) pairs whose generated constraint list is non-empty; V: layouts actually run to completion and checked; '
                 'family reuse: makeFeasible()/run() calls of the sequences, each judged on its own',
         'exhaustive': False,
@@ -1417,6 +1834,7 @@ def run(tier):
         'correspondence': {'cases': len(cases), 'dimension_runs': 2 * len(cases), 'disagreements': len(diffs), 'histogram': hist},
         'layout_validation': stats,
         'reuse_sequences': rstats,
+        'cml_reuse_sequences': cstats,
         'layout_feasibility_histogram': {'X_infeasible': sum(1 for c in lcases if c.get('feasible', [None])[0] is False),
                                          'Y_infeasible': sum(1 for c in lcases if c.get('feasible', [None, None])[1] is False),
                                          'both_feasible': sum(1 for c in lcases if c.get('feasible') == [True, True])},
@@ -1431,6 +1849,12 @@ def replay(path):
     if case and 'replay' in obj:
         cpp = C.build_harness('c07_cc', ['libcola', 'libvpsc'], 'exc')
         layout = 'layout' in obj['replay']
+        if 'cops' in case and 'harness> cml' in obj['replay']:
+            print('--- calls: ' + cops_text(case['cops']))
+            rc, out, err, dt = C.sh([cpp, 'cml', '6'], input=cml_line(case) + '\n', timeout=120)
+            print('--- implementation now (one CALL record per run(): rectangles, registered unsatisfiable lists, entries in unregistered lists, '
+                  'vector in force and its members):\n' + out.replace(' CALL ', '\n CALL '))
+            return 0
         if 'ops' in case and 'harness> seq' in obj['replay']:
             print('--- calls: ' + ops_text(case['ops']))
             rc, out, err, dt = C.sh([cpp, 'seq', '6'], input=seq_line(case) + '\n', timeout=120)
@@ -1466,6 +1890,10 @@ META = {
                 'rewind the statement is refuted (C07_makeFeasible_without_rewind_refuted: the second call offers nothing) although a first call is identical '
                 '(C07_makeFeasible_without_rewind_first_call_same); compared per call and per object with the compiled library in the family reuse (constraint objects re-used across '
                 'makeFeasible() calls, same and fresh layout objects, run() interleaved, verified checker after every call). '
+                'Family cml-reuse: one ConstrainedMajorizationLayout object, up to three run()/runOnce() calls with the registered constraint vector grown or '
+                'replaced (setConstraints(&other)) and the unsatisfiable lists re-registered in between; the verified checker judges every run against the '
+                'constraint set in force AT THAT RUN (pool jointly satisfiable by construction: witness placement; separations, alignments, alignment-pair '
+                'separations only), so a layout object that keeps the first run\'s GradientProjection / constraint snapshot is caught (seeded C07-7). '
                 'PARTIAL: the accept / reject decisions of makeFeasible()\'s search, the solver delivering the hypothesis, the reporting of dropped constraints and '
                 'ConstrainedMajorizationLayout are only validated on real runs by the extracted verified checker (cc_holdsb, proved equivalent to the meaning), '
                 'including a directed family for makeFeasible\'s rollback path (overlap avoidance + rectangles tied by user equalities in both dimensions: '
@@ -1476,6 +1904,23 @@ META = {
                   'exact-rational model of binary64; hand-written model SubCursorModel.v of the sub-constraint cursor protocol whose solver verdict is an ORACLE (Section variable `accept`, '
                   'instantiated with the observed decisions in the correspondence: tie = exact comparison of observer-subclass event logs, cursor and flags per makeFeasible() call). '
                   'No axioms (Print Assumptions: closed). Not covered by proof: force computation, step size, the decisions of makeFeasible\'s '
-                  'priority/rollback search (which alternatives the solver accepts), VPSC itself (C01/C02), majorization loop.',
+                  'priority/rollback search (which alternatives the solver accepts), VPSC itself (C01/C02), majorization loop '
+                  '(validated only: single run per object in the layout family; several runs on one ConstrainedMajorizationLayout object with the constraint vector grown / '
+                  'replaced in between in the family cml-reuse, judged per run against the set in force). Harness or model output the check cannot interpret is a reported '
+                  'violation with the case, never an exception (see META notes).',
     'technique': 'Coq proof over a hand-written model + exact generator correspondence + extracted verified checker on real layouts',
+    'notes': 'Round C07-7/C07-8. (1) C07-8 (makeFeasible combined branch no longer registers the new constraints with the live IncSolver) was already in the domain of '
+             'the family reuse (FixedRelativeConstraint + makeFeasible() judged on its own) but the check CRASHED: with the change makeFeasible() reaches its '
+             '"++++ IN ERROR BLOCK" diagnostics, which print a dangling char* (arbitrary bytes) on stderr, and vlib.common.sh decoded the harness stderr as strict UTF-8 '
+             '(UnicodeDecodeError).  Fixed generally: sh() decodes with errors=replace; parse_seq / parse_layout / parse_cml / parse_gen_safe validate every field '
+             '(event-log and flag syntax by regular expression, list lengths, call counts) and anything they cannot interpret, a checker/model output whose shape does not '
+             'match the case, or a harness record that does not follow the op list becomes a violation carrying the case and a replay line; run() wraps each family driver '
+             '(guarded) so that a remaining exception is reported (machinery violation with the traceback and the seed) instead of exit 2.  Tested by mangling real harness '
+             'output (truncate / garble / drop tokens) through all three drivers.  corpus/c07_seq_04_mf_combined_after_other.json = the demo of C07-8. '
+             '(2) C07-7 (ConstrainedMajorizationLayout caches gpX/gpY of the first run()) needs a second run() on the SAME layout object after the constraint set changed; '
+             'no family did that (mode 3 = one run per object).  New harness mode cml + family cml-reuse (gen_cml_case: append / other-vector / append+other / other+back / '
+             'append+relist / single-axis / runOnce / empty-first); corpus/c07_cml_01/02 = the two halves of the demo.  Single-axis runs are judged only on the axes that run '
+             'laid out (calibrated on the unchanged tree: ConstrainedMajorizationLayout::run(x,y) projects only those - unlike ConstrainedFDLayout).  No classifier applies to a '
+             'violated constraint in this family (only the char* exception keeps its known fingerprint), so nothing can absorb the seeded change.  setAvoidOverlaps is an op of '
+             'the harness mode but is not generated (known finding majorization_fixedrelative_overlap_divergence and the unverified non-overlap oracle).  HEAD: clean for VERIF_SEED=1..4.',
 }
